@@ -64,6 +64,20 @@ func ruleMergeArms(c *Ctx, r *R) {
 			}
 		}
 		covered := map[types.Object]int{}
+		// integer locals initialised with a literal (nDone := 0, nOpen := 2)
+		counterInit := map[types.Object]string{}
+		ast.Inspect(fd.Body, func(n ast.Node) bool {
+			if as, ok := n.(*ast.AssignStmt); ok && as.Tok == token.DEFINE && len(as.Lhs) == len(as.Rhs) {
+				for k := range as.Lhs {
+					if id, ok := as.Lhs[k].(*ast.Ident); ok {
+						if lit, ok := as.Rhs[k].(*ast.BasicLit); ok {
+							counterInit[info.Defs[id]] = lit.Value
+						}
+					}
+				}
+			}
+			return true
+		})
 		// function literals bound to local names (exhausted := func(in *<-chan T) bool {…})
 		localClosures := map[types.Object]*ast.FuncLit{}
 		ast.Inspect(fd.Body, func(n ast.Node) bool {
@@ -101,6 +115,7 @@ func ruleMergeArms(c *Ctx, r *R) {
 				itemObj = info.Defs[id]
 			}
 			var problems []string
+			countsDown := false
 			nilAssigned := 0
 			sends := 0
 			incs := 0
@@ -179,10 +194,23 @@ func ruleMergeArms(c *Ctx, r *R) {
 					if s.Tok == token.INC {
 						incs++
 					}
+					if s.Tok == token.DEC {
+						// counting open inputs down from the number of inputs
+						if id, ok := s.X.(*ast.Ident); ok && counterInit[info.Uses[id]] == itoa(len(ins)) {
+							incs++
+							countsDown = true
+						}
+					}
 				case *ast.BinaryExpr:
 					if s.Op == token.EQL {
-						if lit, ok := s.Y.(*ast.BasicLit); ok && lit.Value == itoa(len(ins)) {
+						if lit, ok := s.Y.(*ast.BasicLit); ok && lit.Value == itoa(len(ins)) && !countsDown {
 							cmpOK = true
+						} else if ok && lit.Value == "0" {
+							if id, isID := s.X.(*ast.Ident); isID && counterInit[info.Uses[id]] == itoa(len(ins)) {
+								cmpOK = true // open-input count reached zero
+							} else {
+								problems = append(problems, "compares the done-count with 0 but the function has "+itoa(len(ins))+" inputs")
+							}
 						} else if ok {
 							problems = append(problems, "compares the done-count with "+lit.Value+" but the function has "+itoa(len(ins))+" inputs")
 						}
@@ -290,6 +318,44 @@ func ruleMergeDispatch(c *Ctx, r *R) {
 			}
 		}
 	})
+	if !one {
+		// or delegated to Replicate(in[0], out), whose shape is decided by C12.replicate-shape
+		instrs(fn, func(b *ssa.BasicBlock, i int, in ssa.Instruction) {
+			call, ok := in.(*ssa.Call)
+			if !ok {
+				return
+			}
+			if cal := staticCallee(&call.Call); cal == nil || fname(cal) != "Replicate" || len(call.Call.Args) < 2 {
+				return
+			}
+			if path(call.Call.Args[0]) != inP.Name()+"[0]" {
+				return
+			}
+			for _, lf := range valueLeaves(call.Call.Args[1], nil, 0) {
+				// the variadic destination list holds exactly out
+				_ = lf
+			}
+			// the single destination is out: the variadic slice literal's only element
+			if sl, ok := call.Call.Args[1].(*ssa.Slice); ok {
+				if al, ok := sl.X.(*ssa.Alloc); ok && al.Referrers() != nil {
+					for _, ref := range *al.Referrers() {
+						if ia, ok := ref.(*ssa.IndexAddr); ok && ia.Referrers() != nil {
+							for _, r2 := range *ia.Referrers() {
+								if st, ok := r2.(*ssa.Store); ok && resolveVal(st.Val) == ssa.Value(fn.Params[0]) {
+									one = true
+								}
+								if st, ok := r2.(*ssa.Store); ok {
+									if ct, ok := st.Val.(*ssa.ChangeType); ok && ct.X == ssa.Value(fn.Params[0]) {
+										one = true
+									}
+								}
+							}
+						}
+					}
+				}
+			}
+		})
+	}
 	r.ok(one, "chans.Merge|single-input-forward", fn.Pos(), "the one-input path must forward every item received from in[0] to out")
 	// the general path sends the received item to out
 	gen := false
